@@ -5,7 +5,7 @@ from props import enginecorr
 
 MODEL_DEPS = ['CheckLib']
 KERNELS = ('StaticHash', 'StaticEdge', 'FunctionEdge', 'ComputableHashBase', 'CacheEdge', 'HashBarrier', 'SwitchEdge',
-           'EvictionCache', 'Graph')
+           'EvictionCache', 'Graph', 'CachedColumn', 'CacheColumns')
 TRUSTED = ['Coq 8.16.1 kernel; vm_compute in case shards and the Example',
            'tools/translate.py for the generator bodies; hand-written VM.step tied by the trace correspondence',
            'the exact call log is compared between Model/VM.v and the real engine on every generated case (correspondence, a sample)']
@@ -75,4 +75,6 @@ def run(ctx):
     res['oracle_checks'] += r10.get('oracle_checks', 0)
     from props import relcorr, hashdigest
     res = relcorr.memo_oracle(ctx, res, 'C03')
-    return hashdigest.add(ctx, res, 'C03')
+    res = hashdigest.add(ctx, res, 'C03')
+    from props import colmodel
+    return colmodel.add(ctx, res, 'C03', n_quick=80, n_thorough=800)
